@@ -220,6 +220,7 @@ class R1(object):
         self.started = set()
         self.steps = {}
         self.probes = {}
+        self.auto = {}  # (tid, step number) -> scoped values readable when that step begins
         self.sv = {"S0": 0, "S1": 0, "P0": 0}
         self.in_shared = 0
         self.unsupported = None
@@ -233,9 +234,13 @@ class R1(object):
             return ("ok", r[1])
         return ("err", r[1])
 
+    def _auto(self, tid):
+        self.auto[(tid, self.steps[tid])] = ANY if self.in_shared else (self.sv["S0"], self.sv["S1"], self.sv["P0"])
+
     def task(self, tc):
         self.started.add(tc.tid)
         self.steps[tc.tid] = 1
+        self._auto(tc.tid)
         rec, made = [], []
         saved = self.now
         try:
@@ -256,6 +261,7 @@ class R1(object):
                 leaves = []
                 shape = self.struct(tc, st[2], made, leaves)
                 self.steps[tc.tid] += 1
+                self._auto(tc.tid)
                 for r in leaves:
                     if r[2] > self.now:
                         self.now = r[2]
